@@ -392,6 +392,24 @@ def fam_longwait_timeout(rng):
     return lines
 
 
+def fam_starve_cv(rng):
+    """C14: the overtakers come back from condition-variable waits (expired or short deadlines, so they were never
+    handed to the mutex queue) instead of from plain lock calls: such a thread has not itself waited on the mutex
+    and must respect MU_LONG_WAIT like any fresh locker."""
+    kind = rng.choice(["w", "w", "r"])
+    lines = ["sem %s" % rng.choice(["counting", "binary"]), "objs mu=1 cv=1 var=1", "var x0 0 mu0"]
+    lines.append("fiber yield ; %s mu0 ; %s mu0" % (("lock", "unlock") if kind == "w" else ("rlock", "runlock")))
+    # ONE thread holds the mutex except inside its cv waits (so every one of its re-acquisitions is a return from a
+    # cv wait): it must make more than LONG_WAIT_THRESHOLD + threads + 6 of them for the oracle to be able to fire
+    for _ in range(rng.choice([1, 1, 2])):
+        n = rng.choice([60, 80])
+        lines.append("fiber " + " ; ".join(["lock mu0"] + ["cvwait cv0 mu0 %s ; yield" % rng.choice(["m5", "z", "m5", "p1"]) for _ in range(n)] + ["unlock mu0"]))
+    if rng.random() < 0.3:
+        lines.append("fiber " + " ; ".join(["lock mu0 ; yield ; unlock mu0"] * 10))
+    lines.append("#strategy4")
+    return lines
+
+
 def fam_refcount(rng):
     """C13 (mutex half): the reference-count pattern.  Every fiber owns one reference to an object that
     contains the mutex; it may use the mutex a few times, then does lock; last = (--refs == 0); unlock;
@@ -423,7 +441,10 @@ def fam_alloc_fail(rng):
     use = ["is_notified n0", "notify n0", "is_notified n1", "note_expiry n1", "ctr_value k0", "ctr_add k1 -1", "ctr_value k1", "notify n1", "is_notified n2"]
     rng.shuffle(use)
     lines.append("fiber " + " ; ".join(ops + use[:rng.choice([3, 5, 7])]))
-    lines.append("#failmalloc %d" % rng.randrange(1, n + 3))
+    if rng.random() < 0.3:
+        lines.append("#failmallocfrom %d" % rng.randrange(1, n + 3))     # a persistent shortage: every later allocation fails too
+    else:
+        lines.append("#failmalloc %d" % rng.randrange(1, n + 3))
     return lines
 
 
@@ -567,8 +588,8 @@ try:
 except Exception:
     _gm = None
 
-FAMILIES = {"alloc_fail": fam_alloc_fail, "note": _gn.fam_note, "note_f4": _gn.fam_note_f4, "note_f4b": _gn.fam_note_f4b, "note_f7": _gn.fam_note_f7, "refcount": fam_refcount, "starve": fam_starve, "cv_rsignal": fam_cv_rsignal, "ctr": fam_ctr, "once": fam_once, "futex": fam_futex,"core": fam_core, "cv": fam_cv, "cv_raw": fam_cv_raw, "muwait": fam_muwait, "debug": fam_debug,
-            "waitn_cv": fam_waitn_cv, "waitn_rep": fam_waitn_rep, "longwait_timeout": fam_longwait_timeout, "starve_mix": fam_starve_mix, "muc_cv": fam_muc_cv, "once_nested": fam_once_nested, "ctr_big": fam_ctr_big, "cancel_children": fam_cancel_children, "cv_rwr": fam_cv_rwr, "muc_eqmix": fam_muc_eqmix, "timed_contended": fam_timed_contended, "waitn_mon": fam_waitn_mon, "cancel_only": fam_cancel_only, "mixed": fam_mixed}
+FAMILIES = {"alloc_fail": fam_alloc_fail, "note": _gn.fam_note, "note_f4": _gn.fam_note_f4, "note_f4b": _gn.fam_note_f4b, "note_wc": _gn.fam_note_wc, "note_f7": _gn.fam_note_f7, "refcount": fam_refcount, "starve": fam_starve, "cv_rsignal": fam_cv_rsignal, "ctr": fam_ctr, "once": fam_once, "futex": fam_futex,"core": fam_core, "cv": fam_cv, "cv_raw": fam_cv_raw, "muwait": fam_muwait, "debug": fam_debug,
+            "waitn_cv": fam_waitn_cv, "waitn_rep": fam_waitn_rep, "starve_cv": fam_starve_cv, "longwait_timeout": fam_longwait_timeout, "starve_mix": fam_starve_mix, "muc_cv": fam_muc_cv, "once_nested": fam_once_nested, "ctr_big": fam_ctr_big, "cancel_children": fam_cancel_children, "cv_rwr": fam_cv_rwr, "muc_eqmix": fam_muc_eqmix, "timed_contended": fam_timed_contended, "waitn_mon": fam_waitn_mon, "cancel_only": fam_cancel_only, "mixed": fam_mixed}
 
 
 if _gw is not None:
@@ -600,6 +621,10 @@ def make_batch(path, seed, plan):
                 if "#strategy4" in lines:      # half of the schedules of this scenario are adversarial
                     lines = [l for l in lines if l != "#strategy4"]
                     ex = [e.replace("strategy=%s" % e.split("strategy=")[1].split()[0], "strategy=%d" % (4 if i % 4 == 0 else 5)) if i % 2 == 0 else e for i, e in enumerate(ex)]   # 5 = 4 + early wake-ups
+                fmf = [l for l in lines if l.startswith("#failmallocfrom ")]
+                if fmf:
+                    lines = [l for l in lines if not l.startswith("#failmallocfrom ")]
+                    ex = [e + " failmallocfrom=%s" % fmf[0].split()[1] for e in ex]
                 fm = [l for l in lines if l.startswith("#failmalloc ")]
                 if fm:
                     lines = [l for l in lines if not l.startswith("#failmalloc ")]
